@@ -3,6 +3,7 @@ import FqModel.JqEnv
 import FqModel.Gen.Overrides
 import FqModel.JsonStr
 import FqModel.TryWrap
+import FqModel.C07Enc
 /-!
   Driver for C07, run `facts` (harness c07 -facts): the harness derives the override table a second time —
   embedded file systems of the running binary in their real load order, the gojq PARSER, "is a builtin" decided
@@ -29,6 +30,22 @@ import FqModel.TryWrap
                                          DIVERGE if the model (TryWrap: print (wrap PROG H), parsed, parentheses erased)
                                          gives another skeleton; PROPFAIL if the re-parsed text is not
                                          `try PROG catch H` up to parentheses (the user's program was changed)
+
+  Run `enc` (harness c07 -enc, FqModel/C07Enc.lean): the JSON text layer, REAL fq against REAL reference, both
+  predicted by the transliterations:
+    enc c <wire> TAB <fq> <gojq>              colorjson Indent 0 / gojq.Marshal
+    enc i <t|s><n> <wire> TAB <fq> <cli> <gojq>   colorjson Tab/Indent n / the reference command's encoder / gojq.Marshal
+        PROPFAIL fq's text differs from the reference's (compact: the library encoder; indented: the command's
+                 encoder, and with the white space outside strings removed it must be the library's text)
+        DIVERGE  a model predicts another text than its implementation wrote
+    num <token> TAB <fq> <gojq> <ovf>         a JSON number token through both `fromjson`s: PROPFAIL if they differ,
+                                              DIVERGE if `Num.normalizeNumber` (or the token grammar) says otherwise
+    nr <tok>,… TAB rej | …                    strings that are not number tokens: both reject (PROPFAIL if they
+                                              differ), the model grammar rejects each (DIVERGE)
+    frame <text> TAB <fq> <gojq> <decodes>;tok=<b>   one value then only white space: PROPFAIL if fq and the reference
+                                              conclude differently, DIVERGE if `Num.fqFromJSON` / `gojqFromJSON` applied
+                                              to the observed Decode results do, or the shared hypothesis
+                                              (Token() = EOF iff the next Decode = EOF) fails
 
   The differential cases of the other run are decided by the harness itself (`!OK` / `!PROPFAIL` lines).
 -/
@@ -75,6 +92,187 @@ def modelKinds (t : FqModel.Gen.Encoder.Esc) : String := Id.run do
   out := flush out start prev cur
   let bad := if t.nonAscii == [("c == utf8.RuneError && size == 1", "\\ufffd")] then "ufffd" else "other"
   return out ++ ";bad:" ++ bad
+
+/-! ### run `enc` -/
+namespace EncDrv
+open FqModel.C07Enc
+
+def hexv (c : Char) : Option Nat :=
+  if '0' ≤ c && c ≤ '9' then some (c.toNat - 48)
+  else if 'a' ≤ c && c ≤ 'f' then some (c.toNat - 87) else none
+
+def unhexL : List Char → Option (List Nat)
+  | [] => some []
+  | [_] => none
+  | a :: b :: r =>
+    match hexv a, hexv b, unhexL r with
+    | some x, some y, some rest => some ((x * 16 + y) :: rest)
+    | _, _, _ => none
+
+/-- `-` is the empty byte string -/
+def unhex (s : String) : Option (List Nat) := if s == "-" then some [] else unhexL s.toList
+
+def hexd (n : Nat) : Char := if n < 10 then Char.ofNat (48 + n) else Char.ofNat (87 + n)
+def hex (bs : List Nat) : String :=
+  if bs.isEmpty then "-" else String.ofList (bs.flatMap (fun b => [hexd (b / 16), hexd (b % 16)]))
+
+def hexNat (cs : List Char) : Option Nat := cs.foldl (fun a c => match a, hexv c with | some n, some d => some (n * 16 + d) | _, _ => none) (some 0)
+
+def splitAt (c : Char) : List Char → Option (List Char × List Char)
+  | [] => none
+  | x :: r => if x == c then some ([], r) else (splitAt c r).map (fun (a, b) => (x :: a, b))
+
+def decInt (cs : List Char) : Option Int :=
+  match cs with
+  | '-' :: r => (String.ofList r).toNat?.map (fun n => -(n : Int))
+  | _ => (String.ofList cs).toNat?.map (fun n => (n : Int))
+
+/-- (clamped bits, AppendFloat 'f', AppendFloat 'e') per float leaf: the shared strconv parameter -/
+abbrev AfTab := List (Nat × List Nat × List Nat)
+
+mutual
+def pValue : Nat → List Char → Option (JV × AfTab × List Char)
+  | 0, _ => none
+  | f + 1, cs =>
+    match cs with
+    | 'n' :: r => some (.null, [], r)
+    | 't' :: r => some (.bool true, [], r)
+    | 'f' :: r => some (.bool false, [], r)
+    | 'i' :: r => (splitAt ';' r).bind fun (d, r') => (decInt d).map fun i => (.int i, [], r')
+    | 'b' :: r => (splitAt ';' r).bind fun (d, r') => (decInt d).map fun i => (.big i, [], r')
+    | 's' :: r => (splitAt ';' r).bind fun (d, r') => (unhexL d).map fun b => (.str b, [], r')
+    | 'd' :: r =>
+      (splitAt ';' r).bind fun (d, r') =>
+        match (String.ofList d).splitOn ":" with
+        | [b, c, tf, te] =>
+          match hexNat b.toList, hexNat c.toList, unhexL tf.toList, unhexL te.toList with
+          | some bits, some cb, some ft, some et => some (.float bits, [(cb, ft, et)], r')
+          | _, _, _, _ => none
+        | _ => none
+    | '[' :: r => (pElems f r).map fun (xs, t, r') => (.arr xs, t, r')
+    | '{' :: r => (pMembers f r).map fun (kvs, t, r') => (.obj kvs, t, r')
+    | _ => none
+def pElems : Nat → List Char → Option (List JV × AfTab × List Char)
+  | 0, _ => none
+  | f + 1, cs =>
+    match cs with
+    | ']' :: r => some ([], [], r)
+    | _ =>
+      (pValue f cs).bind fun (v, t, r) => (pElems f r).map fun (xs, t', r') => (v :: xs, t ++ t', r')
+def pMembers : Nat → List Char → Option (List (List Nat × JV) × AfTab × List Char)
+  | 0, _ => none
+  | f + 1, cs =>
+    match cs with
+    | '}' :: r => some ([], [], r)
+    | _ =>
+      (splitAt ';' cs).bind fun (k, r) => (unhexL k).bind fun kb =>
+        (pValue f r).bind fun (v, t, r') => (pMembers f r').map fun (kvs, t', r'') => ((kb, v) :: kvs, t ++ t', r'')
+end
+
+def readWire (s : String) : Option (JV × AfTab) :=
+  let cs := s.toList
+  match pValue (cs.length + 1) cs with
+  | some (v, t, []) => some (v, t)
+  | _ => none
+
+def afOf (t : AfTab) (bits : Nat) (e : Bool) : List Nat :=
+  match t.find? (·.1 == bits) with
+  | some (_, ft, et) => if e then et else ft
+  | none => [63]   -- `?`: the harness clamped to another value than the model
+
+def readCfg (s : String) : Option (Bool × Nat) :=
+  match s.toList with
+  | 't' :: r => (String.ofList r).toNat?.map (fun n => (true, n))
+  | 's' :: r => (String.ofList r).toNat?.map (fun n => (false, n))
+  | _ => none
+
+def both (prop corr : String) : String :=
+  if prop != "" then (if corr == "" then prop else prop ++ " ;" ++ corr) else if corr == "" then "OK" else corr
+
+def normText (n : Num.Norm) : String :=
+  match n with
+  | .int i => s!"int:{i}"
+  | .big i => s!"big:{i}"
+  | .float => "float"
+  | .posInf => "float:7ff0000000000000"
+  | .negInf => "float:fff0000000000000"
+
+/-- a finite float observation stands for the model's `float` -/
+def normClass (obs : String) : String :=
+  if obs.startsWith "float:" && obs != "float:7ff0000000000000" && obs != "float:fff0000000000000" then "float" else obs
+
+def asciiBytes (s : String) : List Nat := s.toList.map Char.toNat
+
+def step (op obs : String) : String :=
+  match words op with
+  | ["enc", "c", w] =>
+    match readWire w, words obs with
+    | some (v, t), [fq, gj] =>
+      let af := afOf t
+      let mfq := hex (Fq.marshal FqModel.Gen.Encoder.fq af false 0 v)
+      let mgj := hex (Gojq.marshal FqModel.Gen.Encoder.gojq af v)
+      let prop := if fq == gj then "" else s!"PROPFAIL fq's compact JSON text differs from the reference encoder's: fq {fq} reference {gj}"
+      let corr := if mfq == fq && mgj == gj then "" else s!"DIVERGE model={mfq} {mgj}"
+      both prop corr
+    | none, _ => "BADOP wire"
+    | _, _ => "BADOP observation"
+  | ["enc", "i", c, w] =>
+    match readCfg c, readWire w, words obs with
+    | some (tab, n), some (v, t), [fq, cli, gj] =>
+      let af := afOf t
+      let mfq := hex (Fq.marshal FqModel.Gen.Encoder.fq af tab n v)
+      let mcli := hex (GojqCli.marshal FqModel.Gen.Encoder.gojq af tab n v)
+      let prop :=
+        if fq != cli then s!"PROPFAIL fq's indented JSON text ({c}) differs from the reference command's: fq {fq} reference {cli}"
+        else match unhex fq with
+          | none => "PROPFAIL fq's encoder failed"
+          | some b =>
+            if hex (stripWs b) == gj then ""
+            else s!"PROPFAIL fq's indented text ({c}) without insignificant white space is not the reference's compact text {gj}"
+      let corr := if mfq == fq && mcli == cli then "" else s!"DIVERGE model={mfq} {mcli}"
+      both prop corr
+    | none, _, _ => "BADOP config"
+    | _, none, _ => "BADOP wire"
+    | _, _, _ => "BADOP observation"
+  | ["num", tok] =>
+    match words obs with
+    | [fq, gj, ovf] =>
+      let prop := if fq == gj then "" else s!"PROPFAIL fromjson of the number token {tok}: fq {fq}, reference {gj}"
+      let model := match Num.parse (asciiBytes tok) with
+        | none => "reject"
+        | some t => normText (Num.normalizeNumber (fun _ => ovf == "1") t)
+      let corr := if model == normClass gj && model == normClass fq then "" else s!"DIVERGE model={model}"
+      both prop corr
+    | _ => "BADOP observation"
+  | ["nr", toks] =>
+    let bad := (toks.splitOn ",").filter (fun t => (Num.parse (asciiBytes t)).isSome)
+    let corr := match bad with | [] => "" | t :: _ => s!"DIVERGE model=accepts {t}"
+    if obs == "rej" then both "" corr
+    else if obs.endsWith "fq=1,gojq=1" then both "" (if corr == "" then "DIVERGE model=rejects-all" else corr)
+    else both s!"PROPFAIL fromjson accepts a non-number on one side only: {obs}" corr
+  | ["frame", _] =>
+    match words obs with
+    | [fq, gj, d] =>
+      match d.splitOn ";tok=" with
+      | [ds, tk] =>
+        let dl := (ds.splitOn ",").zipIdx.map (fun (x, i) => if x == "v" then Num.Dec.value i else if x == "eof" then .eof else .err)
+        let tokEOF := tk == "1"
+        let mfq := Num.fqFromJSON dl
+        let mgj := match dl with | first :: _ => Num.gojqFromJSON first tokEOF | [] => .fail
+        let okOf := fun (r : Num.Res) => match r with | .ok _ => true | .fail => false
+        let hyp := match dl with
+          | .value _ :: rest => tokEOF == (rest.head? == some Num.Dec.eof)
+          | _ => !tokEOF
+        let prop := if fq == gj then "" else s!"PROPFAIL fromjson framing: fq {fq}, reference {gj}"
+        let corr :=
+          if !hyp then "DIVERGE model=shared hypothesis (Token() = EOF iff next Decode = EOF) does not hold"
+          else if okOf mfq == fq.startsWith "ok:" && okOf mgj == gj.startsWith "ok:" then ""
+          else s!"DIVERGE model={if okOf mfq then "ok" else "fail"} {if okOf mgj then "ok" else "fail"}"
+        both prop corr
+      | _ => "BADOP decodes"
+    | _ => "BADOP observation"
+  | _ => ""
+end EncDrv
 
 structure St where
   seen : Nat := 0
@@ -157,6 +355,8 @@ def step (seen : Nat) (op obs : String) : Nat × String :=
   | _ => (seen, "BADOP unknown op")
 
 def stepAll (st : St) (op obs : String) : St × String :=
+  let re := EncDrv.step op obs
+  if re != "" then (st, re) else
   let (st', r) := stepE st op obs
   if r != "" then (st', r)
   else
